@@ -14,17 +14,38 @@
 (*   MessageBuilder::start_answer(m, rcode) / start_error(m, rcode)          *)
 (*                                             StartAnswerV(V(m), rcode)     *)
 (*   start_answer(b).is_answer(a)              IsAnswerV(StartAnswerV(..),..) *)
+(*   a.copy_records(start_error(b, ..), keep)  CopyIntoV(V(a), V(b))         *)
 (*   XfrResponseInterpreter fed a then b       XfrSeq(a, b)                  *)
 (*                                                                          *)
 (* Everything is defined on the header-and-question view V(m) of a message   *)
 (* (Wire.tla's QSection: the questions up to the count or the first error).  *)
 EXTENDS Wire
 
-\* the header-and-question view of a message of at least 12 octets
+\* records read one after the other as copy_records does (each one parsed,
+\* the next section begins where the last record ended)
+RECURSIVE ReadRecs(_, _, _, _)
+ReadRecs(m, pos, rem, n) ==
+  IF rem = 0 THEN [ok |-> TRUE, n |-> n, end |-> pos]
+  ELSE LET r == ParseRecord(m, pos) IN
+    IF ~r.ok THEN [ok |-> FALSE, n |-> n, end |-> pos] ELSE ReadRecs(m, r.next, rem - 1, n + 1)
+\* the number of records of each section if the whole message can be read
+\* to its last record, <<>> otherwise
+RecCounts(m, q) ==
+  IF q.err THEN <<>>
+  ELSE LET an == ReadRecs(m, q.end, AN(m), 0) IN
+    IF ~an.ok THEN <<>>
+    ELSE LET ns == ReadRecs(m, an.end, NS(m), 0) IN
+      IF ~ns.ok THEN <<>>
+      ELSE LET ar == ReadRecs(m, ns.end, AR(m), 0) IN
+        IF ~ar.ok THEN <<>> ELSE <<an.n, ns.n, ar.n>>
+
+\* the header-and-question view of a message of at least 12 octets (rc: the
+\* record counts for copy_records)
 V(m) ==
   LET q == QSection(m) IN
   [id |-> HId(m), qr |-> QR(m), opcode |-> Opcode(m), rd |-> Bit(At(m, 2), 0), rcode |-> Rcode(m),
-   qd |-> QD(m), cnt |-> <<AN(m), NS(m), AR(m)>>, items |-> q.items, err |-> q.err]
+   qd |-> QD(m), cnt |-> <<AN(m), NS(m), AR(m)>>, items |-> q.items, err |-> q.err,
+   rc |-> RecCounts(m, q)]
 
 \* two questions are the same: name ignoring case, type, class
 QItemEq(x, y) == NameEq(x[1], y[1]) /\ x[2] = y[2] /\ x[3] = y[3]
@@ -112,6 +133,16 @@ StartProjV(v, rcode) ==
 CrossAnsV(x, y) == IsAnswerV(StartAnswerV(y, 0), x)
 
 ---------------------------------------------------------------------------
+(* Message::copy_records(target, op) with the target a reply started for a   *)
+(* second message and op keeping every record: refused (<<0>>) unless every  *)
+(* section of the source can be read to its end; otherwise the result has    *)
+(* the header and questions of the started reply and as many records in each *)
+(* section as the source: <<1, id, qdcount, ancount, nscount, arcount>>.     *)
+CopyIntoV(src, dst) ==
+  IF src.rc = <<>> THEN <<0>>
+  ELSE <<1, dst.id, Len(dst.items), src.rc[1], src.rc[2], src.rc[3]>>
+
+---------------------------------------------------------------------------
 (* XfrResponseInterpreter::interpret_response fed a and then b (and what     *)
 (* each yields drained): the property only demands "no panic".  Under the    *)
 (* deviation the entry guard fails for a first response whose question is    *)
@@ -134,6 +165,7 @@ PairProjV(x, y) ==
    reqm |-> <<ReqMultiAnsV(x, y), ReqMultiAnsV(y, x)>>,
    start |-> <<StartProjV(x, 3), StartProjV(y, 1)>>,
    cross |-> <<CrossAnsV(x, y), CrossAnsV(y, x)>>,
+   copy |-> <<CopyIntoV(x, y), CopyIntoV(y, x)>>,
    xfrseq |-> "nopanic"]
 PairProj(a, b) ==
   IF IsShort(a) \/ IsShort(b) THEN [short |-> <<IsShort(a), IsShort(b)>>]
@@ -161,4 +193,11 @@ HostileNeverAnswersV(x, y) ==
 StartAnswerAnswersV(x) == StartProjV(x, 0).answers = ~x.err
 ClientRefinesV(x, y) ==
   (ReqAnsV(x, y) = 1 /\ ~HeaderOnlyError(y)) => IsAnswerV(y, x)
+
+\* a copy is refused exactly if some section of the source cannot be read,
+\* and what is copied is what the source's counts announce
+CopyLawV(x, y) ==
+  /\ (CopyIntoV(x, y) = <<0>>) = (x.rc = <<>>)
+  /\ x.err => x.rc = <<>>
+  /\ x.rc # <<>> => x.rc = x.cnt
 =============================================================================
